@@ -145,6 +145,21 @@ def check_case(rec, spec, site, kind, iterative, steps):
                 anc |= {c.address.address for c in
                         nx.ancestors(probe.dep_graph, cell)}
         down |= set(members)
+        # cells that read through a computed reference (OFFSET / INDIRECT),
+        # and what depends on them: a write is not propagated to them (the
+        # dependency graph holds written references only, see C01), so their
+        # values are not compared with a fresh model once something was
+        # written
+        dyn = set()
+        for a in forms:
+            sh, co = a.rsplit('!', 1)
+            f = spec['sheets'].get(sh, {}).get(co)
+            if isinstance(f, str) and ('OFFSET(' in f or 'INDIRECT(' in f):
+                dyn.add(a)
+                cell = probe.cell_map.get(a)
+                if cell is not None and cell in probe.dep_graph:
+                    dyn |= {c.address.address for c in
+                            nx.descendants(probe.dep_graph, cell)}
         deps = [a for a in forms if a in down and a not in members]
         others = [a for a in forms if a not in down]
         free_inputs = [a for a in spec['inputs'] if a not in anc]
@@ -153,24 +168,28 @@ def check_case(rec, spec, site, kind, iterative, steps):
                              cycles=True if iterative else None,
                              plugins='vlib.plugin')
 
-        def reference():
-            vals = dict(state['inputs'])
+        def reference(inputs, overwritten):
+            vals = dict(inputs)
             s = spec_ref
-            if state['overwritten'] is not False:
+            if overwritten is not False:
                 s = dict(spec_ref)
                 s['sheets'] = {n: dict(c) for n, c in spec_ref['sheets'].items()}
-                s['sheets'][sheet][coord] = state['overwritten']
+                s['sheets'][sheet][coord] = overwritten
             return wbspec.with_inputs(s, vals)
 
         ref_cache = {}
+        # every state the model has been in: (inputs, overwritten)
+        snapshots = [({}, False)]
 
-        def expected(addr):
-            key = (repr(sorted(state['inputs'].items(), key=repr)),
-                   repr(state['overwritten']))
+        def expected(addr, snapshot=None):
+            inputs, overwritten = snapshot or (state['inputs'],
+                                               state['overwritten'])
+            key = (repr(sorted(inputs.items(), key=repr)), repr(overwritten))
             if key not in ref_cache:
-                ref_cache.clear()
+                if len(ref_cache) > 16:
+                    ref_cache.clear()
                 ref_cache[key] = compile_spec(
-                    wbspec.build_spec(reference()))
+                    wbspec.build_spec(reference(inputs, overwritten)))
             return models.safe_eval(ref_cache[key], addr)
 
         import pycel.excelformula as xf
@@ -234,6 +253,19 @@ def check_case(rec, spec, site, kind, iterative, steps):
                      f'evaluate({addr}) returned {got!r} although its '
                      f'formula calls an unknown function')
                 return
+            if addr in dyn and len(snapshots) > 1:
+                # a computed reference is not followed by invalidation: the
+                # value may be the one of any state the model has been in
+                rec.label('computed-reference-after-write')
+                olds = [expected(addr, snap) for snap in snapshots]
+                if not any(models.same_value(got, w) or (
+                        isinstance(w, tuple) and w[:1] == ('raises',))
+                        for w in olds):
+                    fail(f'wrong-value-after-fault:{where}:computed-reference',
+                         f'evaluate({addr}) = {got!r}, which it never had: '
+                         f'fresh models of the {len(snapshots)} states give '
+                         f'{olds!r}'[:400])
+                return
             want = expected(addr)
             if isinstance(want, tuple) and want[:1] == ('raises',):
                 return
@@ -276,6 +308,8 @@ def check_case(rec, spec, site, kind, iterative, steps):
                                 continue
                         model.set_value(a, step[2])
                         state['inputs'][a] = step[2]
+                        snapshots.append((dict(state['inputs']),
+                                          state['overwritten']))
                 elif op == 'overwrite' and not array_site:
                     if F not in model.cell_map:
                         try:
@@ -285,6 +319,8 @@ def check_case(rec, spec, site, kind, iterative, steps):
                     if F in model.cell_map:
                         model.set_value(F, step[1])
                         state['overwritten'] = step[1]
+                        snapshots.append((dict(state['inputs']),
+                                          state['overwritten']))
                 elif op == 'evalall':
                     for a in forms:
                         if failure:
